@@ -164,16 +164,56 @@ def rule_resolve(rep: Report, repo: Repo) -> None:
 def rule_start_labels(rep: Report, repo: Repo) -> None:
     rep.rule('C16.START-LABELS', 'macro start labels go through insert_label and only at addresses where no label sits', 1)
     f = repo.func(PRE, 'PreprocessorData.insert_macro_start_labels_if_their_address_not_used')
-    # the loop body by forward substitution: insert_label is reached exactly on the paths where the address has no label yet
+    # the recorded start labels are records (address, label, position) - a tuple, or a NamedTuple / dataclass with those fields.
+    # producer: insert_macro_start_label records (self.curr_address, label, code_position); consumer: the loop body (by forward
+    # substitution) reaches insert_label(<label component>, <position component>, address=<address component>) exactly on the
+    # paths where <address component> has no label yet. Components are matched by position, whatever they are called.
+    prod = repo.func(PRE, 'PreprocessorData.insert_macro_start_label')
+    rec_args: List[str] = []
+    fields: List[str] = []
+    for c in calls(prod):
+        if dotted(c.func) == 'self.macro_start_labels.append' and len(c.args) == 1:
+            a0 = c.args[0]
+            if isinstance(a0, ast.Tuple):
+                rec_args = [norm(e) for e in a0.elts]
+            elif isinstance(a0, ast.Call) and isinstance(a0.func, ast.Name) and not a0.keywords:
+                rec_args = [norm(e) for e in a0.args]
+                try:
+                    cdef = repo.cls(PRE, a0.func.id)
+                    fields = [st.target.id for st in cdef.body if isinstance(st, ast.AnnAssign) and isinstance(st.target, ast.Name)]
+                except AnalysisError:
+                    fields = []
+    prod_ok = rec_args == ['self.curr_address', 'label', 'code_position']
     ok = False
     loops = [n for n in ast.walk(f) if isinstance(n, ast.For)]
     if len(loops) == 1:
+        tgt = loops[0].target
+
+        def comp(e: str) -> Optional[int]:
+            if isinstance(tgt, ast.Tuple):
+                names_ = [norm(x) for x in tgt.elts]
+                return names_.index(e) if e in names_ else None
+            if isinstance(tgt, ast.Name) and e.startswith(tgt.id + '.') and e.split('.', 1)[1] in fields:
+                return fields.index(e.split('.', 1)[1])
+            if isinstance(tgt, ast.Name) and e.startswith(tgt.id + '[') and e.endswith(']') and e[len(tgt.id) + 1:-1].isdigit():
+                return int(e[len(tgt.id) + 1:-1])
+            return None
         outs = block_outcomes(loops[0].body, {}, 'start-labels:loop')
         ins = [o for o in outs if any(e.startswith('self.insert_label(') for e in o.effects)]
         skip = [o for o in outs if o not in ins]
-        ok = (bool(ins) and all('address not in self.addresses_with_labels' in o.conds
-                                and any(e == 'self.insert_label(label, code_position, address=address)' for e in o.effects) for o in ins)
-              and all('address in self.addresses_with_labels' in o.conds and not o.effects for o in skip))
+
+        def good(o: Any) -> bool:
+            eff = [e for e in o.effects if e.startswith('self.insert_label(')]
+            if len(eff) != 1:
+                return False
+            call = ast.parse(eff[0], mode='eval').body
+            kw = {k.arg: norm(k.value) for k in call.keywords}          # type: ignore[attr-defined]
+            pos = [norm(a) for a in call.args]                          # type: ignore[attr-defined]
+            addr = kw.get('address')
+            return (addr is not None and comp(addr) == 0 and len(pos) == 2 and comp(pos[0]) == 1 and comp(pos[1]) == 2
+                    and f'{addr} not in self.addresses_with_labels' in o.conds)
+        ok = prod_ok and bool(ins) and all(good(o) for o in ins) and all(not o.effects and any(c.endswith(' in self.addresses_with_labels') and ' not in ' not in c
+                                                                                                 for c in o.conds) for o in skip)
     il = repo.func(PRE, 'PreprocessorData.insert_label')
     tracked = any(norm(s) == 'self.addresses_with_labels.add(address)' for s in il.body)
     fin = repo.func(PRE, 'PreprocessorData.finish')
